@@ -112,6 +112,26 @@ def summarize(fb, item, ok_only=True):
                     seen.add(k)
                     res["f1" if v == 1 else "f0"].append(pos)
                     res["events"].append(("flag", v, pos, e[4]))
+            elif e[0] == "store_through_value" and isinstance(e[1], tuple) and e[1][0] == "unwrap" and isinstance(e[1][1], tuple) and e[1][1][0] == "call" \
+                    and e[1][1][1].endswith("IterMut<'a, T> as std::iter::Iterator>::next") and e[1][1][2]:
+                # `for flag in &mut self.flags[lo..hi] { *flag = v }`: every element of the slice is stored (the store must be on every
+                # iteration of that loop: checked below over the back-edge paths)
+                src = e[1][1][2][0]
+                while isinstance(src, tuple) and src and src[0] == "phi" and src[4] is not None:
+                    src = src[4]
+                while isinstance(src, tuple) and src and src[0] == "call" and re.search(r"::(iter_mut|into_iter)$", src[1]) and src[2]:
+                    src = src[2][0]
+                if isinstance(src, tuple) and src and src[0] == "slice" and src[1] == ("field", ("param", 1), ("f", FLAGS)) and cint(e[2]) in (0, 1):
+                    every = all(any(x[0] == "store_through_value" and x[1] == e[1] for x in q.trace) for q in paths if q.kind == "backedge" and any(x[0] == "call" and ("call", x[1], x[2]) == e[1][1] for x in q.trace))
+                    if every:
+                        v = cint(e[2])
+                        hi = src[3] if src[3] is not None else ("len", src[1])
+                        pos = ("range", src[2], hi)
+                        k = ("f", v, canon(pos))
+                        if k not in seen:
+                            seen.add(k)
+                            res["f1" if v == 1 else "f0"].append(pos)
+                            res["events"].append(("flag", v, pos, e[3] if len(e) > 3 else None))
             elif e[0] == "write" and e[1][1] == -1 and e[2] == (("f", "next_index"),):
                 if ("hw", e[3]) not in seen:
                     seen.add(("hw", e[3]))
